@@ -25,6 +25,13 @@ def run(res, only=None):
     c = os.path.join(wd, "mask.out")
     res.add_tlc(core.run_tlc("MC_C15", res.tier, c, workers=6))
     core.replay_bin(res, "mask", c, [x for x in cfgs if not x.startswith("asan")], tag="mask", env_extra={"HX_PROP": "C18"}, expect_ops=["mask:badindex", "mask:set"])
+    # every access path and conversion of the SIMD-backed vectors (arrays, tuples, slices, AsRef, fields) under AddressSanitizer: an
+    # over-wide store into a stack temporary is invisible natively
+    acs = [x for x in cfgs if x.startswith("asan")]
+    if acs:
+        d = os.path.join(wd, "access.out")
+        res.add_tlc(core.run_tlc("MC_C17", res.tier, d, workers=4))
+        core.replay_bin(res, "tok", d, acs, tag="access", env_extra={"HX_PROP": "C18"}, sanitizer_prop="C18", expect_ops=["acc:read:into_tuple", "acc:read:into_array"])
     res.rule = ("no-panic: 839 public float functions of 20 types (table tools/gen_c18.py, shared by specification and harness) x every "
                 "argument slot x {all lanes, each single lane/entry} x 9 special values (0, -0, subnormal, 2^-80, 2^70, +-inf, NaN, MAX) plus "
                 "8 special pairs in every pair of slots, plus 6 (quick) / 96 (thorough) draws with EVERY slot filled from a seeded pseudo-random mix "
